@@ -362,11 +362,22 @@ def r5_ack_lists(ctx):
     C10.r1_boundaries(ctx)
 
 
+def r6_ack_list_pool(ctx):
+    """The recycled entity lists behind the acknowledgement table are empty when reused: an acknowledgement never covers entities of
+    an earlier (expired or acknowledged) message (C09.R1c restricted to the entity-list pool)."""
+    import rules.C09 as C09
+    before = len(ctx.instances)
+    C09.r1c_pool_hygiene(ctx)
+    keep = [i for i in ctx.instances[before:] if "EntityBuffer" in i["key"] or "entities_buffer" in i["key"] or (not i["ok"] and "pools" in i["key"])]
+    ctx.instances[before:] = keep
+
+
 RULES = [
     ("C11.R1", "send gates test content (not the outer length of nested buffers); predicates/flags/sections agree", r1_send_gates, 8, ["default", "all-features", "server-only"]),
     ("C11.R2", "acknowledgement stores the recorded tick, only for known messages, forward-only", r2_ack, 6, ["default", "all-features", "server-only"]),
     ("C11.R3", "closed set of writers of the per-entity mutation tick", r3_writers, 5, ["default", "all-features", "server-only"]),
     ("C11.R4", "the client acknowledges exactly what it buffered and always sends the acks", r4_client_acks, 8, ["default", "all-features", "client-only"]),
     ("C11.R5", "an acknowledgement covers exactly the entities whose data travelled in that message, so acknowledging one message never skips data of another (same rule as C10.R1)", r5_ack_lists, 12, ["default", "all-features", "server-only"]),
+    ("C11.R6", "recycled acknowledgement entity lists are empty when reused (an ack never covers entities of an earlier message)", r6_ack_list_pool, 1, ["default", "all-features", "server-only"]),
 ]
 THOROUGH_CONFIGS = ["default", "all-features", "server-only", "client-only"]
